@@ -3,6 +3,7 @@ package main
 import (
 	"fmt"
 	"reflect"
+	"regexp"
 
 	"go.flow.arcalot.io/pluginsdk/schema"
 	"harness/hx"
@@ -138,6 +139,7 @@ func tyTargeted() []any {
 }
 
 func groupTyped(s *sink, g *hx.Gen) {
+	groupTypedAPI(s, g)
 	cores := tyCores()
 	wraps := tyWraps()
 	core := cores[g.R.Intn(len(cores))]
@@ -235,4 +237,176 @@ func clipStr(s string, n int) string {
 		return s[:n] + "..."
 	}
 	return s
+}
+
+// ---------------------------------------------------------------------------------------------
+// typed entry points: UnserializeType / ValidateType / SerializeType must agree with the untyped
+// operations of the same schema (same verdict, same value), and never panic.
+
+func tyAPISchemas() []tyCore {
+	return []tyCore{
+		{"int[0,1000] bytes", func() schema.Type { return schema.NewIntSchema(sp(int64(0)), sp(int64(1000)), schema.UnitBytes) }},
+		{"float[-1,1]", func() schema.Type { return schema.NewFloatSchema(sp(-1.0), sp(1.0), nil) }},
+		{"string[1,4] pattern", func() schema.Type {
+			return schema.NewStringSchema(sp(int64(1)), sp(int64(4)), regexp.MustCompile("^[a-z0-9]+$"))
+		}},
+		{"bool", func() schema.Type { return schema.NewBoolSchema() }},
+		{"pattern", func() schema.Type { return schema.NewPatternSchema() }},
+		{"int enum", func() schema.Type {
+			return schema.NewIntEnumSchema(map[int64]*schema.DisplayValue{1: nil, 1024: nil}, schema.UnitBytes)
+		}},
+		{"string enum", func() schema.Type { return schema.NewStringEnumSchema(map[string]*schema.DisplayValue{"a": nil, "5": nil}) }},
+		{"typed string enum", func() schema.Type {
+			return schema.NewTypedStringEnumSchema(map[tyColour]*schema.DisplayValue{"red": nil, "green": nil})
+		}},
+		{"typed list", func() schema.Type {
+			return schema.NewTypedListSchema[int64](schema.NewIntSchema(sp(int64(0)), nil, nil), sp(int64(1)), sp(int64(3)))
+		}},
+		{"typed map", func() schema.Type {
+			return schema.NewTypedMapSchema[string, int64](schema.NewStringSchema(nil, nil, nil), schema.NewIntSchema(nil, nil, nil), nil, sp(int64(2)))
+		}},
+		{"typed object", func() schema.Type { return schema.NewTypedObject[tyCircle]("Circle", tyCircleObj().Properties()) }},
+		{"typed scope", func() schema.Type { return schema.NewTypedScopeSchema[tySquare](tySquareObj()) }},
+		{"oneof", func() schema.Type {
+			return schema.NewOneOfStringSchema[tyShape](map[string]schema.Object{"c": tyCircleObj(), "q": tySquareObj()}, "kind", false)
+		}},
+	}
+}
+
+func tyScalarInputs() []any {
+	return []any{"5", "5kB", "1kB", " 7 ", 5, int64(11), int8(-1), uint64(1024), uint8(1), 1.5, float32(0.5), -1.0, 2.0, "0.5", "1e-1", "abc", "ab1", "ABCDE", "",
+		true, false, "yes", "off", "maybe", 1, 0, "^a+$", "(", "a", "red", tyColour("green"), []any{1, "2", 3.0}, []int64{1, 2}, []any{}, []any{1, 2, 3, 4},
+		map[string]any{"a": 1}, map[string]any{"a": 1, "b": "2", "c": 3}, map[any]any{"k": "7"}, nil, []byte("ab"),
+		// pointers, nil pointers, pointers to pointers, typed nils, channels, funcs, arrays, structs
+		sp(int64(5)), (*int64)(nil), sp("abc"), (*string)(nil), sp(true), sp(1.5), sp(sp(int64(1))), (*tyCircle)(nil), (*map[string]any)(nil),
+		sp(map[string]any{"a": 1}), sp([]any{1}), [2]int64{1, 2}, struct{}{}, make(chan int), func() {}, error(nil), fmt.Errorf("e"),
+		[]any(nil), map[string]any(nil), map[any]any(nil), []string(nil), any(tyColour("")), complex(1, 2), uintptr(7), int16(300), uint32(70000), float32(1e30)}
+}
+
+func groupTypedAPI(s *sink, g *hx.Gen) {
+	cores := tyAPISchemas()
+	core := cores[g.R.Intn(len(cores))]
+	var sch schema.Type
+	if r := hx.Guard(func() hx.Result { sch = core.build(); return hx.Result{R: "ok"} }); r.R != "ok" {
+		s.finding(Finding{Prop: "C04", What: "constructing " + core.name + " panicked: " + r.Msg})
+		return
+	}
+	rv := reflect.ValueOf(sch)
+	mU, mV, mS := rv.MethodByName("UnserializeType"), rv.MethodByName("ValidateType"), rv.MethodByName("SerializeType")
+	if !mU.IsValid() {
+		return
+	}
+	errT := reflect.TypeOf((*error)(nil)).Elem()
+	asErr := func(v reflect.Value) error {
+		if v.IsNil() {
+			return nil
+		}
+		return v.Interface().(error)
+	}
+	_ = errT
+	inputs := append(tyScalarInputs(), tyTargeted()...)
+	for i := 0; i < 4; i++ {
+		inputs = append(inputs, g.RandomVal(0).ToGo())
+	}
+	for _, x := range inputs {
+		x := x
+		desc := fmt.Sprintf("%s, input %T %s", core.name, x, clipStr(fmt.Sprintf("%#v", x), 160))
+		var typed reflect.Value
+		var terr error
+		tr := hx.Guard(func() hx.Result {
+			out := mU.Call([]reflect.Value{reflect.ValueOf(&x).Elem()})
+			typed, terr = out[0], asErr(out[1])
+			return hx.Result{R: "ok"}
+		})
+		var untyped any
+		var uerr error
+		ur := hx.Guard(func() hx.Result { untyped, uerr = sch.Unserialize(x); return hx.Result{R: "ok"} })
+		s.stats["typedapi:U"]++
+		for _, op := range []string{"V", "S", "C"} {
+			r := hx.Guard(func() hx.Result {
+				switch op {
+				case "V":
+					_ = sch.Validate(x)
+				case "S":
+					_, _ = sch.Serialize(x)
+				default:
+					_ = sch.ValidateCompatibility(x)
+				}
+				return hx.Result{R: "ok"}
+			})
+			if r.R == "panic" {
+				s.finding(Finding{Prop: "C04", What: map[string]string{"V": "Validate", "S": "Serialize", "C": "ValidateCompatibility"}[op] + " panicked: " + r.Msg, Detail: []string{desc}})
+			}
+		}
+		if tr.R == "panic" || ur.R == "panic" {
+			s.finding(Finding{Prop: "C04", What: "UnserializeType / Unserialize panicked: " + tr.Msg + ur.Msg, Detail: []string{desc}})
+			continue
+		}
+		if (terr == nil) != (uerr == nil) {
+			s.finding(Finding{Prop: "C02", What: fmt.Sprintf("UnserializeType and Unserialize disagree on acceptance (typed err: %v, untyped err: %v)", terr, uerr), Detail: []string{desc}})
+			continue
+		}
+		if terr != nil {
+			continue
+		}
+		if goCanon(typed.Interface()) != goCanon(untyped) {
+			// a typed string enum's UnserializeType returns the underlying string: compare by value
+			if fmt.Sprint(typed.Interface()) != fmt.Sprint(untyped) {
+				s.finding(Finding{Prop: "C01", What: "UnserializeType and Unserialize return different values", Detail: []string{desc, goCanon(typed.Interface()), goCanon(untyped)}})
+				continue
+			}
+		}
+		// Validate / Serialize, typed vs untyped, on the unserialized value
+		conv := func(m reflect.Value) (reflect.Value, bool) {
+			if !m.IsValid() {
+				return reflect.Value{}, false
+			}
+			want := m.Type().In(0)
+			v := reflect.ValueOf(untyped)
+			switch {
+			case want.Kind() == reflect.Interface:
+				return reflect.ValueOf(&untyped).Elem(), true
+			case v.IsValid() && v.Type().AssignableTo(want):
+				return v, true
+			case v.IsValid() && v.Type().ConvertibleTo(want) && v.Kind() == want.Kind():
+				return v.Convert(want), true
+			}
+			return reflect.Value{}, false
+		}
+		if a, ok := conv(mV); ok {
+			var e1, e2 error
+			r := hx.Guard(func() hx.Result { e1 = asErr(mV.Call([]reflect.Value{a})[0]); e2 = sch.Validate(untyped); return hx.Result{R: "ok"} })
+			s.stats["typedapi:V"]++
+			if r.R == "panic" {
+				s.finding(Finding{Prop: "C04", What: "ValidateType / Validate panicked on an unserialized value: " + r.Msg, Detail: []string{desc}})
+			} else if e1 != nil || e2 != nil {
+				s.finding(Finding{Prop: "C01", What: fmt.Sprintf("an unserialized value fails ValidateType (%v) / Validate (%v)", e1, e2), Detail: []string{desc}})
+			}
+		}
+		if a, ok := conv(mS); ok {
+			var w1, w2 any
+			var e1, e2 error
+			r := hx.Guard(func() hx.Result {
+				out := mS.Call([]reflect.Value{a})
+				w1, e1 = out[0].Interface(), asErr(out[1])
+				w2, e2 = sch.Serialize(untyped)
+				return hx.Result{R: "ok"}
+			})
+			s.stats["typedapi:S"]++
+			switch {
+			case r.R == "panic":
+				s.finding(Finding{Prop: "C04", What: "SerializeType / Serialize panicked on an unserialized value: " + r.Msg, Detail: []string{desc}})
+			case e1 != nil || e2 != nil:
+				s.finding(Finding{Prop: "C01", What: fmt.Sprintf("an unserialized value fails SerializeType (%v) / Serialize (%v)", e1, e2), Detail: []string{desc}})
+			default:
+				// compared up to the CBOR type normalisation (SerializeType of a typed enum returns the
+				// defined string type, Serialize the plain string: the same bytes on the wire)
+				n1, err1 := cborNorm(w1)
+				n2, err2 := cborNorm(w2)
+				if err1 != nil || err2 != nil || hx.Canon(hx.Enc(n1)) != hx.Canon(hx.Enc(n2)) {
+					s.finding(Finding{Prop: "C01", What: "SerializeType and Serialize return different wire forms", Detail: []string{desc, hx.Canon(hx.Enc(w1)), hx.Canon(hx.Enc(w2))}})
+				}
+			}
+		}
+	}
 }
